@@ -299,6 +299,9 @@ func run(c *runner.Ctx) {
 				checkFile(c, src, desc+" [through a symbolic link]", annotated, "link")
 				if cli != "" {
 					checkFile(c, src, desc+" [through a symbolic link]", annotated, "link-f")
+					// the linked file as an entry of the directory / a match of the pattern (its target lives in a sub-directory)
+					checkFile(c, src, desc+" [a symbolic link among the entries of -d]", annotated, "link-d")
+					checkFile(c, src, desc+" [a symbolic link matched by -p]", annotated, "link-p")
 				}
 			}
 			// a fixed 1/8 slice (by index) also goes through the built CLI in all three modes
